@@ -3,8 +3,11 @@
 
 pub mod args;
 pub mod c11;
+pub mod c36;
+pub mod c37;
+pub mod c38;
 pub mod env;
 
 pub fn checks() -> Vec<vf_core::Check> {
-    vec![c11::check()]
+    vec![c11::check(), c36::check(), c37::check(), c38::check()]
 }
